@@ -197,7 +197,10 @@ func genSize(t *rapid.T, payload, recvCap int, label string) int {
 
 func TestDelivery(t *testing.T) {
 	rapid.Check(t, func(t *rapid.T) {
-		payload := rapid.SampledFrom([]int{1, 3, 16, 100, 1024, 1024}).Draw(t, "payload")
+		// MaxPacketMsgPayloadSize is configuration (p2p.max_packet_msg_payload_size): small values, the default, and values
+		// around the points where the packet envelope's length prefixes grow by a byte (127/128, 16375/16376/16384) and
+		// the usual "tuned" sizes above the default
+		payload := rapid.SampledFrom([]int{1, 3, 16, 100, 118, 127, 128, 1024, 1024, 1024, 4096, 16375, 16376, 16384, 32768, 65536}).Draw(t, "payload")
 		nCh := rapid.SampledFrom([]int{1, 2, 2, 3, 3, 4}).Draw(t, "nch")
 		// channel ids: mostly the range the stock reactors use (< 0x80), sometimes the upper half
 		maxID := byte(0x7F)
@@ -326,7 +329,7 @@ func TestDelivery(t *testing.T) {
 
 		nontrivial := nCh >= 2 && multi > 0
 		lib.Case("TestDelivery", lib.FP(payload, nCh, nG, total, multi, hostile, fmt.Sprint(plans)), nontrivial,
-			fmt.Sprintf("channels:%d", nCh), fmt.Sprintf("high-ids:%v", maxID == 0xFF), fmt.Sprintf("goroutines:%d", nG), "hostile:"+hostile,
+			fmt.Sprintf("channels:%d", nCh), fmt.Sprintf("payload:%d", payload), fmt.Sprintf("high-ids:%v", maxID == 0xFF), fmt.Sprintf("goroutines:%d", nG), "hostile:"+hostile,
 			fmt.Sprintf("multipacket:%v", multi > 0), fmt.Sprintf("rejected-some:%v", rejected > 0))
 
 		if !rs.waitFor(func(n, nerr int) bool { return n >= want || nerr > 0 }) {
@@ -395,15 +398,19 @@ func TestDelivery(t *testing.T) {
 				write(n)
 			}
 			// then keep streaming. Between the wire and recvPacketMsg sit a 1024-byte bufio.Reader and at most one packet
-			// being read, so once more than that has been ACCEPTED by the pipe after the packet that crossed the capacity,
-			// that packet has provably been handled without an error.
-			const slack = 4096
+			// being read (up to payload+~12 bytes), so once more than that has been ACCEPTED by the pipe AFTER the packet
+			// that crossed the capacity, that packet has provably been handled without an error.
+			slack := 2048 + 2*(payload+16)
+			crossed := false
 			for !refused && past < slack {
 				if !write(chunk) {
 					break
 				}
+				if crossed {
+					past += chunk + 8 // wire bytes accepted AFTER the packet that crossed the capacity
+				}
 				if acc > c.recvCap {
-					past += chunk + 8
+					crossed = true
 				}
 			}
 			if _, nerr := rs.snapshot(); !refused && nerr == 0 {
